@@ -659,7 +659,29 @@ pub fn history(tr: &mut Tracer, w: &mut World, rng: &mut Rng, p: &Profile) {
             }
         } else if take(p.w_caps) {
             let st: me::StateResponse = w.q(&w.engine, &me::QueryMsg::State {}).unwrap();
-            match rng.below(5) {
+            match rng.below(6) {
+                5 => {
+                    // a reversal that lands above the holding cap although it releases margin: a low-leverage position,
+                    // the cap just above its size, then an opposite order at the highest leverage the engine admits
+                    let ps = with_position(w);
+                    if let Some((pv, pt)) = ps.iter().cloned().find(|(pv, pt)| w.position(*pv, *pt).map(|p| !p.size.value.is_zero()).unwrap_or(false)) {
+                        if let (Some(p0), Some(pn)) = (w.position(pv, pt), spot_pnl(w, pv, pt)) {
+                            let cap = p0.size.value.u128() + 1 + rng.below(3) as u128 * (d / 10);
+                            tr.step(w, &Op::Eng { sender: ID_OWNER, funds: 0, m: EMsg::RmWl(pt) });
+                            tr.step(w, &Op::Vamm { sender: ID_OWNER, v: pv, m: VMsg::UpdCfg { hold: Some(cap), oi: Some(0), toll: None, spread: None, fluct: Some(0), engine: None, ifund: None, feed: None, twap: None } });
+                            let init = eng_cfg(w).initial_margin_ratio.u128();
+                            let li = std::cmp::max(std::cmp::min(if init == 0 { 10 } else { d / init }, 10), 1);
+                            let lev = li * d;
+                            let side = if p0.direction == mv::Direction::AddToAmm { Side::Sell } else { Side::Buy };
+                            // notional: what the position is worth plus 2..4 times as much again
+                            let n = pn.position_notional.u128().saturating_mul(3 + rng.below(3) as u128);
+                            if n > 0 && n < 2_000_000u128 * d {
+                                let op = mk_open(w, pt, pv, side, n * d / lev + 1, lev, 0);
+                                tr.step(w, &op);
+                            }
+                        }
+                    }
+                }
                 0 => { let oi = st.open_interest_notional.u128(); let cap = match rng.below(3) { 0 => oi, 1 => oi + 1, _ => oi + pick_amount(rng, d) * 5 };
                        tr.step(w, &Op::Vamm { sender: ID_OWNER, v, m: VMsg::UpdCfg { hold: None, oi: Some(cap), toll: None, spread: None, fluct: None, engine: None, ifund: None, feed: None, twap: None } }); }
                 1 => { let cap = match w.position(v, t) { Some(p) => p.size.value.u128() + rng.below(3) as u128 * d, None => pick_amount(rng, d) / 10 };
